@@ -1,7 +1,7 @@
 import Pcore.Proofs.LoaderSeq
 import Pcore.Proofs.LoaderTS
 import Pcore.Proofs.LoaderDep
-import Pcore.Model.LoaderKey
+import Pcore.Proofs.LoaderKey
 import Pcore.Proofs.LoaderStatic
 /-!
 # C12 — Loader resolution: parents first, bindings are write-once, misses are not sticky
@@ -57,8 +57,10 @@ Full statement / proved / missing
   by `toLower_idem` + `caseRanges_lowerOK`), so `C12_case` / `C12_case_ops` speak about the real folding.  The typed name as
   a struct with caches (`Model/LoaderKey.lean`): `C12_key_is_canon`; `C12_key_derived_fresh_partial` — a name derived by
   `Child()`/`Parent()` from a name without cached key has the right key.                                            proved
-  FULL statement `C12_key_derived_full` (also with a cached key) is FALSE: `C12_key_derived_wrong`,
-  `C12_key_derived_fault` (known finding C12-typedname-derived-key); missing: the cached, length-preserving case.
+  `C12_key_derived_lenstable_partial`, `C12_key_derived_ascii` — with a cached key too, when lower-casing keeps the UTF-8
+  length of every letter.                                                                                            proved
+  FULL statement `C12_key_derived_full` (every name, cached key or not) is FALSE: `C12_key_derived_wrong`,
+  `C12_key_derived_fault` (known finding C12-typedname-derived-key).
 * the global level (`Model/LoaderStatic.lean`): `C12_define_ancestor_after_miss` — after a miss a definition in any loader
   of the chain, the static root included, makes the name resolve to that value; `ResolveResolvables` = the definitions of
   the declared types in order, ended by the first rejection: `C12_rr_loop`, `C12_rr_ok`, `C12_rr_queue`,
@@ -610,9 +612,10 @@ theorem C12_key_is_canon (ns name auth : String) :
 /-- FULL STATEMENT ("one name, one key"): a typed name derived with `Child()` / `Parent()` from a name made by
     `newTypedName2` — whether or not `MapKey()` was called on that name before — has the key of a fresh typed name of its
     three strings, and deriving it never faults.  FALSE: `C12_key_derived_wrong`, `C12_key_derived_fault` (known finding
-    C12-typedname-derived-key).  Proved part: `C12_key_derived_fresh_partial` (no key cached before).  Missing: the case of
-    a cached key when lower-casing keeps the UTF-8 length of every letter of the three strings (all-ASCII names among
-    them) — there the byte offsets are right; validated by differential execution only. -/
+    C12-typedname-derived-key).  Proved parts: `C12_key_derived_fresh_partial` (no key cached before) and
+    `C12_key_derived_lenstable_partial` (a cached key, lower-casing keeps the UTF-8 length of every letter of the three
+    strings; `C12_key_derived_ascii`: all-ASCII strings).  Nothing is missing: the excluded class is exactly the one the
+    negation witnesses live in. -/
 def C12_key_derived_full : Prop :=
   ∀ (ns name auth : List Char) (keyed : Bool) (t' : TN),
     let t := if keyed then (TN.mk' ns name auth).mapKey.1 else TN.mk' ns name auth
@@ -652,7 +655,56 @@ theorem C12_key_derived_fresh_partial (t t' : TN) (h : t.canonical = []) :
   · exact hkey ((hc _ rfl).2 t' h1)
   · exact hkey ((hp _ rfl).2 t' h1)
 
+/-- … and WITH a cached key the derived key is right, and nothing faults, whenever lower-casing keeps the UTF-8 length of
+    every letter of the authority, the namespace and the name: the byte offsets measured on the strings as given are then
+    the offsets in the lower-cased key -/
+theorem C12_key_derived_lenstable_partial (ns name auth : List Char) (keyed : Bool) (t' : TN)
+    (hs : LenStable (auth ++ ns ++ stripColonsL name)) :
+    let t := if keyed then (TN.mk' ns name auth).mapKey.1 else TN.mk' ns name auth
+    t.child ≠ .fault ∧ t.parent ≠ .fault ∧ ((t.child = .ok t' ∨ t.parent = .ok t') → t'.mapKey.2 = t'.freshKey) := by
+  cases keyed with
+  | false => exact C12_key_derived_fresh_partial (TN.mk' ns name auth) t' rfl
+  | true =>
+    simp only [if_true]
+    have ht : (TN.mk' ns name auth).mapKey.1 =
+        { ns := ns, auth := auth, name := stripColonsL name, canonical := (TN.mk' ns name auth).freshKey, parts := none } := by
+      simp [TN.mapKey, TN.mk']
+    rw [ht]
+    generalize hT : (TN.mk ns auth (stripColonsL name) (TN.mk' ns name auth).freshKey none) = T
+    have hkey : T.canonical = T.freshKey := by subst hT; rfl
+    have hs : LenStable (T.auth ++ T.ns ++ T.name) := by subst hT; exact hs
+    have hk2 : ∀ x : TN, x.canonical = [] ∨ x.canonical = x.freshKey → x.mapKey.2 = x.freshKey := by
+      intro x hx
+      unfold TN.mapKey
+      rcases hx with hx | hx
+      · simp [hx]
+      · by_cases he : x.canonical = []
+        · simp [he]
+        · simp only [he, if_false]; exact hx
+    refine ⟨?_, parent_no_fault _ (Or.inr hkey) hs, ?_⟩
+    · unfold TN.child
+      split
+      · exact childN_no_fault _ 1 (Or.inr hkey) hs
+      · simp
+    · rintro (h | h)
+      · unfold TN.child at h
+        split at h
+        · exact hk2 t' (childN_key _ 1 t' hkey hs h)
+        · cases h
+      · exact hk2 t' (parent_key _ t' hkey hs h)
+
+/-- in particular for all-ASCII authority, namespace and name -/
+theorem C12_key_derived_ascii (ns name auth : List Char) (keyed : Bool) (t' : TN)
+    (h : ∀ c ∈ auth ++ ns ++ stripColonsL name, c.toNat < 128) :
+    let t := if keyed then (TN.mk' ns name auth).mapKey.1 else TN.mk' ns name auth
+    t.child ≠ .fault ∧ t.parent ≠ .fault ∧ ((t.child = .ok t' ∨ t.parent = .ok t') → t'.mapKey.2 = t'.freshKey) :=
+  C12_key_derived_lenstable_partial ns name auth keyed t' (lenStable_ascii _ h)
+
 def rtChars : List Char := runtimeAuthority.toList
+-- C12_key_derived_lenstable_partial: É (2 bytes, é 2 bytes) is length stable, the Kelvin sign is not
+example : LenStable ("http://x".toList ++ "type".toList ++ stripColonsL "\u00c9a::Foo".toList) ∧
+    ¬ LenStable "\u212a".toList ∧ ∀ c ∈ rtChars ++ "type".toList ++ stripColonsL "::Ab::c".toList, c.toNat < 128 := by
+  decide +kernel
 -- the hypothesis is satisfiable, the conclusion is not vacuous: `A::b` without cached key has the child `b`
 example : (TN.mk' "type".toList "A::b".toList rtChars).canonical = [] ∧
     (TN.mk' "type".toList "A::b".toList rtChars).child = .ok (TN.mk' "type".toList "b".toList rtChars) := by decide +kernel
